@@ -14,34 +14,51 @@ from vlib.runner import Info, Outside, Reject, Sub, Violation
 ID = "C15"
 RULE = (
     "Recipes are functions with one scf.for of the shape construct-pipeline recognises: pure index arithmetic on %i and "
-    "memref.subview tiles of global tensors / L1 buffers, then 2..4 stages of 1..2 ops from {memref.copy, linalg.generic with "
-    "library_call, dart.operation}, each stage closed by snax.cluster_sync_op; operands are L1 memref.alloc buffers (allocated "
-    "before the loop, as reuse-memref-allocs leaves them), whole function-argument buffers and the tiles; 80% of the operands "
-    "follow the producer(stage s) -> consumer(stage s+1) chain, the rest are drawn freely so every buffer-to-stage assignment "
-    "occurs (what pipeline-duplicate-buffers refuses with NotImplementedError is a rejection). Bounds are constants (ub "
-    "sometimes a run-time argument) with lb in {0,1,2,3}, step in {1,2,3}, trip counts 0..6 (0..8 thorough), three quarters "
-    ">= stages-1. pipeline-canonicalize-for runs first as in snaxc_main; the loop it leaves is the sequential reference. "
-    "construct-pipeline, pipeline-duplicate-buffers, unroll-pipeline are applied and both programs are executed on a two-core "
-    "epoch machine with symbolic buffer contents. Oracles: (1) multiset of (stage op, evaluated operand tiles) equal; (2) no "
-    "tile touched that the sequential loop does not touch; (3) no cross-core conflicting access inside one barrier epoch; "
-    "(4) every stage op reads the same symbolic terms as in the sequential loop and all function-argument buffers end equal. "
-    "A second sub enumerates the grid stages {2,3,4} x trip 0..8 x buffer assignments (one op per stage). "
+    "memref.subview tiles (1 or 2 whole rows) of global tensors / of a tiled L1 buffer, then 2..4 stages of 1..2 ops from "
+    "{memref.copy, linalg.generic with library_call, dart.operation}, each stage closed by snax.cluster_sync_op. Operands are L1 "
+    "memref.alloc buffers (allocated before the loop, as reuse-memref-allocs leaves them), whole function-argument buffers and "
+    "the tiles; most operands follow the producer(stage s) -> consumer(stage s+1) chain (60..100% per case), the rest are drawn "
+    "from side operands or freely, so every buffer-to-stage assignment occurs (what pipeline-duplicate-buffers refuses with "
+    "NotImplementedError is a rejection); extra read-only inputs, second outputs, a second op per stage; rarely: accumulating "
+    "outs, an index scalar operand, a copy after the loop that reads an L1 buffer. Bounds are constants (ub sometimes a run-time "
+    "argument) with lb in {0,1,2,3}, step in {1,2,3}, trip counts 0..6 (0..8 thorough), about three quarters >= stages-1. "
+    "pipeline-canonicalize-for runs first as in snaxc_main; the loop it leaves is the sequential reference. construct-pipeline, "
+    "pipeline-duplicate-buffers, unroll-pipeline are applied and both programs are executed on a two-core epoch machine with "
+    "symbolic buffer contents (vlib/machine_c15.py). Oracles: (1) the multiset of (stage op, evaluated operand tiles) is equal, "
+    "i.e. every (stage, iteration) exactly once with the same index-dependent operands; (2) no tile is touched that the "
+    "sequential loop does not touch; (3) no cross-core read/write conflict inside one barrier epoch (write/write conflicts "
+    "poison the rows instead, so they count iff somebody reads them or they survive); (4) every stage op and every op after the "
+    "loop reads the same symbolic terms as in the sequential loop and all function-argument buffers end equal. In the ranges "
+    "of the two documented unroll-pipeline defects (trip < stages-1; lb != 0 or step != 1) a mismatch is classified as known only "
+    "if the executed (stage, index) multiset is exactly the one those defects predict. "
+    "Sub 'shape': a plain chain with one deviation from the recognised shape (index op between stages, double barrier, no last "
+    "barrier, op after the last barrier, iter_args): the loop must be left alone or stay equivalent. "
+    "Sub 'grid': exhaustive: stages {2,3,4} x kinds {copy/gen alternating, all gen, all copy} x every assignment of "
+    "(input, output) of each stage to {tile of a global, L1 buffer b_k} (for 4 stages: the neighbouring buffers only) x trip 0..8 "
+    "(quick: stages 2,3, alternating kinds). "
     "Non-trivial: the pipeline was constructed, trip count >= 1 and at least one buffer was duplicated; distinct by recipe hash."
 )
 ASSUMPTIONS = [
     "xDSL 0.70 compatibility shim (vlib/compat.py)",
     "interpreter vlib/interp.py and vlib/machine_c15.py are the reference semantics: memref.copy moves row contents, a compute op "
-    "writes f(tag, inputs) to its outputs (outputs are read as well only if the linalg body uses them), memref.copy runs on the "
-    "data-mover core, linalg.generic/dart.operation on the compute core, snax.cluster_sync_op is a full barrier for both cores",
+    "writes f(tag, inputs) to its outputs (an output is read as well iff the linalg body uses its block argument), memref.copy "
+    "runs on the data-mover core, linalg.generic/dart.operation on the compute core (snaxc/util/dispatching_rules.py), "
+    "snax.cluster_sync_op is a full barrier for both cores and all DMA/accelerator work of an epoch is complete at the barrier",
     "interleavings are not enumerated: absence of cross-core conflicts inside an epoch makes every interleaving equal to the "
     "canonical program order, which is the one executed for the data-flow comparison",
     "pipeline-canonicalize-for is a documented pre-pass, not under test here (C17): the loop it leaves is the reference",
-    "L1 buffers are allocated before the loop (reuse-memref-allocs hoists them in the real pipeline)",
+    "L1 buffers are allocated before the loop (reuse-memref-allocs hoists them in the real pipeline); buffers are 2-D and every "
+    "tile is a block of whole rows, so an element region is a row interval",
+    "exceptions of the passes other than NotImplementedError, and a failing module.verify() after them, are counted as "
+    "rejections 'crash ...' (DESIGN 3.5: C15 is about results, not totality); use-before-definition that verify() does not "
+    "see is a violation",
+    "insert-sync-barrier / dispatch-regions are not appended (optional in the design): cores are assigned by op kind",
 ]
 
 K_SHORT = "unroll-pipeline: trip count < stages-1: unconditional prologue/epilogue execute iterations outside [lb, ub)"
 K_POST = "pipeline-duplicate-buffers: duplicated buffer is read after the loop (holds iteration ub-2 when ub-1 is odd)"
-K_RW = "pipeline-duplicate-buffers: read-modify-write output (linalg outs used by the body) is duplicated: loop-carried contents are lost"
+K_RW = ("construct-pipeline: read-modify-write output (linalg outs read by the body) is classified write-only (then duplicated, "
+        "or shared with another stage unchecked)")
 K_SCALAR = ("construct-pipeline: non-memref stage operand computed from the induction variable bypasses pipeline.index "
             "(used outside the loop / for the wrong iteration)")
 K_ALIAS = ("pipeline-duplicate-buffers: loop-carried dependence between stages through distinct subviews of one buffer is not "
@@ -249,7 +266,19 @@ def check_case(rc, want_text=False):
     classes += sorted(built.features)
     detail_base = dict(stages=S, lb=lb, ub=ub, step=step, trip=trip, duplicated=dup)
 
+    # whole buffers that some op reads and writes through one linalg `outs` operand and that are duplicated or used by another stage
+    stage_of = {}
+    for e in m0.events:
+        for o in e.operands:
+            if o[0] != "s" and not o[5] and e.tag in built.stage_tags:
+                stage_of.setdefault(o[1], set()).add(built.stage_tags[e.tag])
+    rw_shared = sorted({o[1] for e in m0.events for o in e.operands
+                        if o[0] == "rw" and not o[5] and (o[1] in dup or len(stage_of.get(o[1], ())) > 1)})
+
     def fail(sig, **kw):
+        if rw_shared and constructed and sig.startswith(("race:", "flow:", "final:")):
+            sig = K_RW
+            kw["read_modify_write_buffers"] = rw_shared
         if alias and constructed and sig.startswith(("race:", "flow:", "final:")):
             sig = K_ALIAS
         if rc.get("tail") and constructed and rc["tail"][0] in ("mid-index", "double-sync"):
@@ -322,17 +351,13 @@ def check_case(rc, want_text=False):
         bad_tags = {k[0] for k in list(missing) + list(extra)}
         if all(t.startswith("post") for t in bad_tags):
             # code after the loop reads a buffer: only the documented cause (it was duplicated) is classified as known
-            srcs = {n for e in m1.events if e.tag in bad_tags for (md, n, _s, _o, _k) in e.operands if md in ("r", "rw")}
+            srcs = {o[1] for e in m1.events if e.tag in bad_tags for o in e.operands if o[0] in ("r", "rw")}
             if srcs and srcs <= set(dup):
                 known.append((K_POST, dict(detail_base, ops=sorted(bad_tags), before=to_text(ref), after=to_text(opt),
                                            sequential_reads=_show_terms(terms, next(iter(missing), None)),
                                            pipelined_reads=_show_terms(terms, next(iter(extra), None)))))
                 missing = extra = None
     if f0 != f1 and missing is not None:
-        rw_dup = sorted({n for e in m1.events for (md, n, _s, _o, _k) in e.operands if md == "rw" and n in dup})
-        if rw_dup:
-            fail(K_RW, buffers=rw_dup, sequential_reads=_show_terms(terms, next(iter(missing), None)),
-                 pipelined_reads=_show_terms(terms, next(iter(extra), None)))
         tags = sorted({k[0] for k in list(missing) + list(extra)})
         ex = next(iter(extra)) if extra else None
         mi = next((k for k in missing if ex is None or k[0] == ex[0]), None)
@@ -341,8 +366,8 @@ def check_case(rc, want_text=False):
     fin0, fin1 = m0.final_args(), m1.final_args()
     if known:
         # rows written by the ops after the loop are a consequence of the post-loop read already recorded
-        skip = {(n, r) for e in m1.events if e.tag and e.tag.startswith("post") for (md, n, _s, o, k) in e.operands
-                if md in ("w", "rw") for r in range(o, o + k)}
+        skip = {(o[1], r) for e in m1.events if e.tag and e.tag.startswith("post") for o in e.operands
+                if o[0] in ("w", "rw") for r in range(o[3], o[3] + o[4])}
         fin0 = {k: v for k, v in fin0.items() if k not in skip}
         fin1 = {k: v for k, v in fin1.items() if k not in skip}
     if fin0 != fin1:
@@ -362,8 +387,8 @@ _SAMPLES = [0]
 
 
 def _inplace(e):
-    reads = {(n, s) for (m, n, s, _o, _k) in e.operands if m in ("r", "rw")}
-    writes = {(n, s) for (m, n, s, _o, _k) in e.operands if m in ("w", "rw")}
+    reads = {(o[1], o[2]) for o in e.operands if o[0] in ("r", "rw")}
+    writes = {(o[1], o[2]) for o in e.operands if o[0] in ("w", "rw")}
     return bool(reads & writes)
 
 
@@ -414,10 +439,12 @@ def prop_shape(rc):
 
 SUBS = [
     Sub("loop", lambda tier: G.loop_recipe(tier), prop_loop, budget=dict(quick=2000, thorough=50000),
-        floor=dict(quick=100, thorough=2500),
+        floor=dict(quick=110, thorough=2600),
         nontrivial_rule="pipeline constructed, trip count >= 1, at least one buffer duplicated"),
     Sub("shape", lambda tier: G.shape_recipe(tier), prop_shape, budget=dict(quick=300, thorough=3000),
+        floor=dict(quick=8, thorough=40),
         nontrivial_rule="the deviating loop was pipelined anyway (trip count >= 1, a buffer duplicated)"),
     Sub("grid", lambda tier: st.nothing(), prop_grid, budget=dict(quick=0, thorough=0), exhaustive=G.grid, exhaustive_only=True,
+        floor=dict(quick=8, thorough=95),
         nontrivial_rule="assignment accepted by the passes with a duplicated buffer (all trip counts 0..8 executed)"),
 ]
